@@ -402,6 +402,7 @@ def spec_coxeter(draw, n, shape, dmax, maxword=8):
     word = draw(st.lists(st.integers(0, rank - 1), min_size=0, max_size=maxword))
     return dict(ctor="coxeter_hyperbolic_rep", n=n, shape=[], cox=cox, via=via,
                 style=draw(st.sampled_from(["alpha", "alphanum"])), word=word,
+                automaton=draw(st.booleans()),
                 extra_words=draw(st.lists(st.lists(st.integers(0, rank - 1), max_size=4),
                                           min_size=1, max_size=3)))
 
@@ -776,6 +777,21 @@ def build(spec):
         if ws:
             arg = ["".join(w) for w in ws] if simple else ws
             extras.append(("rep.isometries(words)", rep.isometries(arg), (len(ws),)))
+        if spec.get("automaton") and rank <= 4:
+            # the group's isometries enumerated through its automaton - after another
+            # representation of the same group has been enumerated the same way (what that
+            # call computed belongs to that representation)
+            aut = G.automaton()
+            # (multi-character generator names: edge labels are generators, not words)
+            G.geometric_representation().automaton_accepted(aut, 2, edge_words=simple)
+            if simple:      # (freely_reduced_elements reads names character by character)
+                G.canonical_representation().freely_reduced_elements(1)
+            acc = rep.automaton_accepted(aut, 2, edge_words=simple)
+            extras.append(("rep.automaton_accepted(automaton, 2)", acc, tuple(acc.shape)))
+            if simple:
+                fr = rep.freely_reduced_elements(2)
+                extras.append(("rep.freely_reduced_elements(2)", fr, tuple(fr.shape)))
+            lab.append("via-automaton")
         lab += ["via=" + spec["via"], "rank=%d" % rank, "wordlen=%d" % len(word)]
         if np.any(cox <= 0):
             lab.append("has-infinity")
